@@ -94,29 +94,38 @@ def r17_2_5(ctx) -> None:
             var = par.targets[0].id
         elif isinstance(par, ast.AnnAssign) and isinstance(par.target, ast.Name):
             var = par.target.id
-        # completion gates: a test reading <obj>.eof, or the truthiness / length of a second pull on the same object
+        # completion gates (each a test whose "incomplete" edge only raises):
+        #   (1) `not <obj>.eof`                      (2) a second pull that is given <obj>.unconsumed_tail
+        #   (3) a second pull with other input, provided a test of <obj>.unconsumed_tail (truthy -> raise) is also on every path
+        #   (4) a local bound to an `or` of those (tail or pull / … or not eof)
         gates: List[CNode] = []
         weak: List[CNode] = []
+        tail_tests: List[CNode] = []
+        pulls_need_tail: List[CNode] = []
         for t in cfg.nodes:
             if t.kind != "test" or t.ast is None or t is B:
                 continue
-            txt = norm(t.ast)
-            reads_eof = any(isinstance(x, ast.Attribute) and x.attr == "eof" and norm(x.value) == objtxt for x in ast.walk(t.ast))
-            second, not_eof = _completion_facts(eng, D, t.ast, objtxt, s.node, 0)
-            if isinstance(t.ast, ast.Name) and not_eof:
-                second = True  # `x = … or not obj.eof` ; `if x: raise`
-            if reads_eof:
-                # `not eof` (false edge of the atom) must only raise
-                lab = "false"
-                if isinstance(t.ast, ast.Compare):
-                    lab = None  # eof == False etc.: not an accepted idiom
-                if lab and not can_reach_exit(cfg, succ_by_label(cfg, t, lab)):
+            e = t.ast
+            kind = _gate_kind(eng, D, e, objtxt, s.node)
+            if kind == "eof":      # the atom is <obj>.eof : false edge = incomplete
+                if not can_reach_exit(cfg, succ_by_label(cfg, t, "false")):
                     gates.append(t)
-            elif second:
+            elif kind in ("pull-tail", "or-complete"):
                 if not can_reach_exit(cfg, succ_by_label(cfg, t, "true")):
                     gates.append(t)
-            elif "unconsumed_tail" in txt:
+            elif kind == "pull":
+                if not can_reach_exit(cfg, succ_by_label(cfg, t, "true")):
+                    pulls_need_tail.append(t)
+            elif kind == "tail":
+                if not can_reach_exit(cfg, succ_by_label(cfg, t, "true")):
+                    tail_tests.append(t)
                 weak.append(t)
+        for r0 in cfg.returns():
+            pass
+        # (3): a bare pull counts only together with a tail test on every path from the bounded call to each return
+        for pt in pulls_need_tail:
+            if tail_tests and all(cfg.must_pass(B, r0, tail_tests) for r0 in cfg.returns() if r0 in cfg.reachable(B)):
+                gates.append(pt)
         for r in cfg.returns():
             v = r.ast.value  # type: ignore[union-attr]
             if v is None:
@@ -141,6 +150,15 @@ def r17_2_5(ctx) -> None:
                          construct=f"completion before {norm(r.ast)}")
             else:
                 ctx.ok("R17.2", inst, "a raise guarded by " + " / ".join(norm(g.ast)[:50] for g in gates) + " lies on every path from the bounded call")
+        # R17.6 the limit applies to the *decompressed* size: every raise of the exceeded-size error lies after the bounded call
+        for node in cfg.nodes:
+            if node.kind == "stmt" and isinstance(node.ast, ast.Raise) and node.ast.exc is not None:
+                nm = norm(node.ast.exc.func if isinstance(node.ast.exc, ast.Call) else node.ast.exc).split(".")[-1]
+                if nm == "ExceededSizeError":
+                    ok6 = B is not None and cfg.must_pass(cfg.entry, node, [B])
+                    ctx.check(ok6, "R17.6", D, node.ast, f"{D.short} :: {norm(node.ast)[:40]} after inflation", "ExceededSizeError is raised from a condition on the compressed input, before "
+                              "anything was inflated: incompressible plaintexts within the limit (DEFLATE adds framing) are refused", "raised only after the bounded inflate call",
+                              construct="exceeded-size raise before inflation")
         # the refusal is the exceeded-size error
         for g in gates:
             lab = "false" if any(isinstance(x, ast.Attribute) and x.attr == "eof" for x in ast.walk(g.ast)) else "true"  # type: ignore[arg-type]
@@ -151,6 +169,43 @@ def r17_2_5(ctx) -> None:
                         ctx.check(nm.split(".")[-1] == "ExceededSizeError", "R17.2", D, node.ast, f"{D.short} :: {norm(node.ast)[:50]}",
                                   f"over-limit data is refused with {nm}, not the exceeded-size error", "raises ExceededSizeError")
     ctx.count("R17.2/5", n, 1, "returns of decompress()")
+
+
+def _is_pull(x: ast.AST, objtxt: str, first_call: ast.Call) -> bool:
+    return isinstance(x, ast.Call) and isinstance(x.func, ast.Attribute) and x.func.attr in ("decompress", "flush") \
+        and norm(x.func.value) == objtxt and x is not first_call
+
+
+def _gate_kind(eng, fn: FunctionInfo, e: ast.AST, objtxt: str, first_call: ast.Call, depth: int = 0):
+    """classify a test expression: 'eof' | 'tail' | 'pull' | 'pull-tail' | 'or-complete' | None"""
+    if isinstance(e, ast.Call) and isinstance(e.func, ast.Name) and e.func.id == "bool" and len(e.args) == 1:
+        return _gate_kind(eng, fn, e.args[0], objtxt, first_call, depth)
+    if isinstance(e, ast.Attribute) and norm(e.value) == objtxt:
+        if e.attr == "eof":
+            return "eof"
+        if e.attr == "unconsumed_tail":
+            return "tail"
+    if _is_pull(e, objtxt, first_call):
+        a0 = e.args[0] if e.args else None
+        if a0 is not None and norm(a0) == f"{objtxt}.unconsumed_tail":
+            return "pull-tail"
+        return "pull"
+    if isinstance(e, ast.BoolOp) and isinstance(e.op, ast.Or):
+        kinds = [_gate_kind(eng, fn, v, objtxt, first_call, depth) for v in e.values]
+        kinds += ["not-eof" for v in e.values if isinstance(v, ast.UnaryOp) and isinstance(v.op, ast.Not) and _gate_kind(eng, fn, v.operand, objtxt, first_call, depth) == "eof"]
+        if "not-eof" in kinds or "pull-tail" in kinds or "or-complete" in kinds or ("tail" in kinds and "pull" in kinds):
+            return "or-complete"
+        return None
+    if isinstance(e, ast.UnaryOp) and isinstance(e.op, ast.Not) and _gate_kind(eng, fn, e.operand, objtxt, first_call, depth) == "eof":
+        return "or-complete"
+    if isinstance(e, ast.Name) and depth < 3 and e.id not in fn.params:
+        defs = [d for d in eng.flow._defs(fn).get(e.id, [])]
+        if len(defs) == 1 and defs[0][0] == "assign" and not defs[0][2] and isinstance(defs[0][1], ast.AST):
+            k = _gate_kind(eng, fn, defs[0][1], objtxt, first_call, depth + 1)
+            if k == "eof":
+                return None  # `x = obj.eof` tested later: not an accepted idiom
+            return k
+    return None
 
 
 def _completion_facts(eng, fn: FunctionInfo, e: ast.AST, objtxt: str, first_call: ast.Call, depth: int):
